@@ -974,6 +974,7 @@ def derived_values(ctx, rule, classes):
     no_lazily_filled_attributes(ctx, rule, classes)
     no_state_outside_objects(ctx, rule, classes=classes)
     memo_keys_complete(ctx, rule, classes=classes)
+    attribute_memo_keys_complete(ctx, rule, classes)
     emptiness_not_decided_by_volume(ctx, rule, classes=classes)
     if set(classes) & {'Slicer', 'PlateSlicer', 'Plate'}:
         no_writes_through_get(ctx, rule, classes=tuple(c for c in classes if c in ('Slicer', 'PlateSlicer', 'Plate')))
@@ -1232,8 +1233,11 @@ def observers_convert_to_the_requested_unit(ctx, rule, classes=('Container', 'Pl
                 if isinstance(st, ast.Assign) and any(isinstance(y, ast.Name) and y.id in unit_names for y in ast.walk(st.value)):
                     for t in st.targets:
                         for nm in ast.walk(t):
-                            if isinstance(nm, ast.Name) and nm.id not in unit_names and isinstance(st.value, ast.Call) and \
-                                    ('parse' in ast.unparse(st.value.func) or 'split' in ast.unparse(st.value.func)):
+                            alias = isinstance(st.value, (ast.Name, ast.IfExp, ast.BoolOp)) and all(
+                                isinstance(y, (ast.Name, ast.Attribute, ast.Constant, ast.IfExp, ast.BoolOp, ast.Compare, ast.UnaryOp,
+                                               ast.expr_context, ast.boolop, ast.cmpop, ast.unaryop)) for y in ast.walk(st.value))
+                            if isinstance(nm, ast.Name) and nm.id not in unit_names and (alias or (isinstance(st.value, ast.Call) and (
+                                    'parse' in ast.unparse(st.value.func) or 'split' in ast.unparse(st.value.func)))):
                                 unit_names.add(nm.id)
                                 changed = True
         # values computed before the return: name -> expression
@@ -1297,3 +1301,126 @@ def _precedes_in_block(gate, stmt):
                     return True
         cur = par
     return False
+
+
+def attribute_memo_keys_complete(ctx, rule, classes):
+    """A dictionary kept on an object and filled on demand by a method (`v = self._memo.get(k)` .. `self._memo[k] = v`)
+    answers every later call that builds the same key: the key has to contain every parameter of the method that the stored
+    value depends on - by data (`steps = self.steps[self.stages[timeframe]]`) or by control (`if mode == 'after': steps =
+    reversed(steps)`).  A parameter counts as contained when it occurs in the key as itself or, for an object declared to a
+    recipe, through its unique `.name`."""
+    model = ctx.model.plain()
+    n = 0
+    bad = []
+    for fi in model.funcs.values():
+        if fi.mod.rel != 'pyplate/pyplate.py' or fi.parent is not None or fi.cls is None or fi.cls.name not in classes:
+            continue
+        params = [p for p in fi.all_param_names() if p not in ('self', 'cls')]
+        if not params:
+            continue
+        stores = []
+        for st in ast.walk(fi.node):
+            if isinstance(st, ast.Assign):
+                for t in st.targets:
+                    if isinstance(t, ast.Subscript) and isinstance(t.value, ast.Attribute) and isinstance(t.value.value, ast.Name) and \
+                            t.value.value.id in ('self', fi.cls.name):
+                        stores.append((st, t))
+        for st, t in stores:
+            memo = ast.unparse(t.value)
+            looked_up = any((isinstance(x, ast.Call) and isinstance(x.func, ast.Attribute) and x.func.attr == 'get' and
+                             ast.unparse(x.func.value) == memo) or
+                            (isinstance(x, ast.Compare) and any(ast.unparse(c) == memo for c in x.comparators) and
+                             any(isinstance(o, (ast.In, ast.NotIn)) for o in x.ops)) or
+                            (isinstance(x, ast.Subscript) and isinstance(x.ctx, ast.Load) and ast.unparse(x.value) == memo)
+                            for x in ast.walk(fi.node))
+            if not looked_up:
+                continue
+            # filled on demand: the store sits under the test that found nothing (`if k not in memo`, `if found is None` where
+            # `found` came from the look-up) - a dictionary that is simply updated is state, not a memo
+            found_names = {tg.id for a_ in ast.walk(fi.node) if isinstance(a_, ast.Assign) and memo in ast.unparse(a_.value)
+                           for tg in a_.targets if isinstance(tg, ast.Name)}
+            on_demand = False
+            p = getattr(st, 'parent', None)
+            while p is not None and p is not fi.node:
+                if isinstance(p, ast.If):
+                    tt = p.test
+                    # (`if k not in d: d[k] = v  else: raise` registers a new name, it does not remember an answer)
+                    if isinstance(tt, ast.Compare) and any(isinstance(o, ast.NotIn) for o in tt.ops) and \
+                            any(ast.unparse(c) == memo for c in tt.comparators) and \
+                            not any(isinstance(b, ast.Raise) for b in p.orelse):
+                        on_demand = True
+                    if _is_none_test(tt) and isinstance(tt.left, ast.Name) and tt.left.id in found_names and isinstance(tt.ops[0], ast.Is):
+                        on_demand = True
+                p = getattr(p, 'parent', None)
+            if not on_demand:
+                continue
+            n += 1
+            key = t.slice
+            # names the key is built from (through local assignments)
+            defs = {}
+            for s2 in ast.walk(fi.node):
+                ctrl = set()
+                p = getattr(s2, 'parent', None)
+                while p is not None and p is not fi.node:
+                    if isinstance(p, (ast.If, ast.While)):
+                        # the look-up guard itself (`if cached is None`) is no input of the value
+                        if memo not in ast.unparse(p.test) and not _is_none_test(p.test):
+                            ctrl |= {y.id for y in ast.walk(p.test) if isinstance(y, ast.Name)}
+                    p = getattr(p, 'parent', None)
+                if isinstance(s2, (ast.Assign, ast.AugAssign)):
+                    for tg in (s2.targets if isinstance(s2, ast.Assign) else [s2.target]):
+                        for nm in ast.walk(tg):
+                            if isinstance(nm, ast.Name) and isinstance(nm.ctx, ast.Store):
+                                defs.setdefault(nm.id, set()).update({y.id for y in ast.walk(s2.value) if isinstance(y, ast.Name)} | ctrl)
+                elif isinstance(s2, ast.For):
+                    for nm in ast.walk(s2.target):
+                        if isinstance(nm, ast.Name):
+                            defs.setdefault(nm.id, set()).update({y.id for y in ast.walk(s2.iter) if isinstance(y, ast.Name)} | ctrl)
+
+            def closure(start):
+                todo, seen = list(start), set()
+                while todo:
+                    nm = todo.pop()
+                    if nm in seen:
+                        continue
+                    seen.add(nm)
+                    todo.extend(defs.get(nm, ()))
+                return seen
+            value_inputs = closure({y.id for y in ast.walk(st.value) if isinstance(y, ast.Name)}) & set(params)
+            key_names = closure({y.id for y in ast.walk(key) if isinstance(y, ast.Name)})
+            in_key = set()
+            for kexp in [key] + [v for nm in key_names for v in []]:
+                pass
+            # how the parameters occur in the key expression (after substituting local key variables once)
+            key_exprs = [key]
+            for s2 in ast.walk(fi.node):
+                if isinstance(s2, ast.Assign) and any(isinstance(tg, ast.Name) and tg.id in {y.id for y in ast.walk(key) if isinstance(y, ast.Name)}
+                                                      for tg in s2.targets):
+                    key_exprs.append(s2.value)
+            for ke in key_exprs:
+                for y in ast.walk(ke):
+                    if isinstance(y, ast.Name) and y.id in params:
+                        par = getattr(y, 'parent', None)
+                        if isinstance(par, ast.Attribute):
+                            if par.attr == 'name' and fi.cls.name in ('Recipe', 'RecipeStep'):
+                                in_key.add(y.id)
+                        elif isinstance(par, ast.Call) and par.func is not y and not (isinstance(par.func, ast.Name) and par.func.id in ('str', 'repr', 'tuple', 'id')):
+                            pass        # f(param) need not determine param
+                        else:
+                            in_key.add(y.id)
+            missing = sorted(value_inputs - in_key)
+            if missing:
+                bad.append((fi, st.lineno, memo, ast.unparse(key)[:40], missing))
+    anchor = model.func('Container.__init__')
+    for fi, line, memo, key, missing in bad:
+        ctx.ob(rule, ctx.model.funcs.get(fi.qualname, anchor), line, f"{fi.qualname}: the key `{key}` of `{memo}` determines the stored value", False,
+               fact=f"the value also depends on the parameter(s) {missing}",
+               why='a later call with another value of that parameter is answered with what was stored for the first one',
+               key=f"attribute memo key incomplete in {fi.qualname}")
+    ctx.ob(rule, anchor, anchor.node.lineno, 'keys of memos kept on objects name every parameter the stored value depends on', not bad,
+           fact=f"{n} memo store(s) examined", why='see the reports', key='attribute memo keys', nontrivial=False)
+
+
+def _is_none_test(t):
+    return isinstance(t, ast.Compare) and len(t.ops) == 1 and isinstance(t.ops[0], (ast.Is, ast.IsNot)) and \
+        isinstance(t.comparators[0], ast.Constant) and t.comparators[0].value is None
